@@ -137,14 +137,30 @@ pub fn lines_strategy() -> impl Strategy<Value = InputCase> {
             ">> [mode]: components\n@flour{1%kg}\n>> [mode]: all\n@&flour{2%kg} @flour{3%g}", ">> [mode]: components\n@flour{1%kg}\n>> [mode]: steps\n@flour{2%kg}", "@flour|[- todo -]{200%g}", "#frying pan| [- todo -] {}", "@x|\n{1%kg}",
             "@water{0-250%ml}", "@oil{=0-100%ml} ~{0-5%min}", "@x{0%kg} @y{0-0%g}",
             ">> serves: 4", ">> yield: 6|12", "@x{.05%g}", "@x{.05-.1%g}", "@x{.5 g}", "[---]", "[- x --] y", "[- a - b -]",
+            // units where none is allowed, blanks at every separating position (see the blank substitution below)
+            "#pot{1 big}", "#pan{2%large}", "#lid{1 small}(n)", "#b{ 1 x }", "~{5 kg}", "~t{ 5 % kg }", "@a{ 1 % kg }( n )", "#pot{ 2 }( big )", "@&a{ 1 kg }",
+            // blocks without any item under each mode (a lone backslash at the very end escapes nothing)
+            ">> [mode]: steps\nMix the @flour{}.\n\n\\", ">> [mode]: components\n@flour{200%g}\n>> [mode]: steps\nMix the @flour{}.\n\n\\", ">> [mode]: text\nsome text\n\n\\", ">> [mode]: steps\n\\", ">> [mode]: components\n\\\n\n\\", ">> [duplicate]: ref\n@a{}\n\n\\", "= s\n\n\\", "> \\",
+            // names that are only a path prefix, with the recipe marker
+            "@@..{}", "@@/{}", "@@.{}", "@@dir/..{}", "@@./{}", "@@../{}", "@@./ {1}", "@@a/b/{}", "@@ {}",
+            // servings followed directly by letters and numerals that are not ASCII
+            ">> servings: 4人分", ">> serves: 2é", ">> yield: 3½ portions", "---\nservings: 6ª\n---", "---\nservings: [4人分, 2é]\n---", ">> servings: 2|4人分|6個",
         ]).prop_map(|s| s.to_string()),
+        // the same templates with every ASCII blank replaced by one that is not ASCII (multi-byte separators
+        // in front of units, notes, values, names)
+        1 => (proptest::sample::select(vec![
+            "@a{1 kg}", "#pot{1 big}", "#lid{1 small}(n)", "~{5 min}", "~{5 kg}", "@a{ 1 % kg }( n )", "#pot{ 2 }( big )", "@&a{ 1 kg }", "@a{1 1/2 cups}", "@a{1 - 2 % g}",
+            ">> servings: 2 | 4", ">> time: 1 h 30 min", "= sec =", "== a b ==", "> note text", "@olive oil{}", "#frying pan|pan{}", "@&(~ 1)x{}", "@a|b c{}", "bake at 180 C for 5 min",
+            "@d{= 1 kg}(n)", "@x{ }", "#y{ }( )", "~ {5 % min}", "@@green pesto {}", ">> [mode] : steps", "[- c -] >> k: v",
+        ]), proptest::sample::select(EXOTIC_BLANKS.to_vec())).prop_map(|(t, b)| t.replace(' ', b)),
         // many old-style entries (the deprecation warning gets one label per entry)
         1 => (6usize..14, proptest::bool::weighted(0.3)).prop_map(|(n, crlf)| (0..n).map(|i| format!(">> k{i}: v{i}")).collect::<Vec<_>>().join(if crlf { "\r\n" } else { "\n" })),
         1 => (proptest::sample::select(vec!["time", "prep time", "cook time", "servings", "tags", "author", "source", "locale", "title", "duration"]),
               proptest::sample::select(vec![">> ", ""]), metadata_value_strategy())
             .prop_map(|(k, pre, v)| format!("{pre}{k}: {v}")),
     ];
-    let nl = prop_oneof![6 => Just("\n"), 2 => Just("\r\n"), 1 => Just("\n\n"), 1 => Just("\r")];
+    // (no terminator: the line is glued to the next one, or the document ends without a line break)
+    let nl = prop_oneof![6 => Just("\n"), 2 => Just("\r\n"), 1 => Just("\n\n"), 1 => Just("\r"), 1 => Just("")];
     (
         proptest::collection::vec((line, nl), 1..10),
         ext_strategy(),
